@@ -17,6 +17,8 @@ pub fn methods(include_mut_unmock: bool) -> Vec<u8> {
     let mut m = vec![0, 2, 4, 5, 6, 7];
     if include_mut_unmock {
         m.push(12);
+        // `&mut self`, default body and real function together
+        m.push(13);
     }
     m
 }
